@@ -21,7 +21,9 @@ Inductive ncase :=
   (* operators.Equal on two numbers, and Decimal.Equal on them *)
 | KNumEq (m1 e1 m2 e2 : Z) (op_equal : bool) (dec_equal : bool)
   (* decimal.NewFromString on a number literal (exponent notation included) *)
-| KNumNew (s : text) (r : option (Z * Z)).
+| KNumNew (s : text) (r : option (Z * Z))
+  (* operators.Equal on a number and a text *)
+| KNumTextEq (m e : Z) (s : text) (op_equal : bool).
 
 Definition ncheck (k : ncase) : bool :=
   match k with
@@ -30,6 +32,7 @@ Definition ncheck (k : ncase) : bool :=
   | KNumEq m1 e1 m2 e2 o d =>
       Bool.eqb (equal_num (Dec m1 e1) (Dec m2 e2)) o && Bool.eqb (dec_eqb (Dec m1 e1) (Dec m2 e2)) d
   | KNumNew s r => opt_dec_same (new_from_string s) r
+  | KNumTextEq m e s o => Bool.eqb (equal_num_text (Dec m e) s) o
   end.
 
 Fixpoint mismatches_from {A} (chk : A -> bool) (i : N) (ks : list A) : list N :=
@@ -78,7 +81,9 @@ Inductive dcase :=
 | KDate (e : env) (y m d : Z) (rtxt ftxt : text) (rback fback : option (Z * Z * Z))
 | KDateParse (e : env) (s : text) (r : option (Z * Z * Z))
 | KTime (e : env) (h mi s ns : Z) (rtxt ftxt : text) (rback fback : option (Z * Z * Z * Z))
-| KTimeParse (s : text) (r : option (Z * Z * Z * Z)).
+| KTimeParse (s : text) (r : option (Z * Z * Z * Z))
+  (* FieldValues.Parse on a raw text: has a value at all, its number, its datetime (fill = current time of day) *)
+| KField (ez : ztable) (e : env) (fh fm fs fns : Z) (raw : text) (r : option (option (Z * Z) * option Z)).
 
 Definition dcheck (k : dcase) : bool :=
   match k with
@@ -96,6 +101,12 @@ Definition dcheck (k : dcase) : bool :=
       text_eqb (render_time (Tod h mi s ns)) rtxt && text_eqb (format_time e (Tod h mi s ns)) ftxt
       && opt_tod_same (time_from_string rtxt) rback && opt_tod_same (time_from_string ftxt) fback
   | KTimeParse s r => opt_tod_same (time_from_string s) r
+  | KField ez e fh fm fs fns raw r =>
+      match field_parse (Tod fh fm fs fns) (offset_of ez) e raw, r with
+      | None, None => true
+      | Some (n, d), Some (n', d') => opt_dec_same n n' && opt_Z_same d d'
+      | _, _ => false
+      end
   end.
 
 Definition dmismatches (ks : list dcase) : list N := mismatches_from dcheck 0%N ks.
